@@ -653,7 +653,14 @@ def check_crypto_algs(ctx, rule='B2'):
     want = ('list', (('each', 0, names, (), ('call', CLS + '._load_from_dict', ('param', 'self'),
                                              (('key', ('call', 'builtins.str', NONE, (('#0', ('elem', names, 0)),))),
                                               ('cnf_dict', ('param', ps[2]))))),))
-    ctx.check(len(rets) == 1 and rets[0][1] == want and len(A.exit_envs) == 1, rule,
+    def no_recv(t):
+        # _load_from_dict does not use its receiver (a static method): self._load_from_dict and Configuration._load_from_dict are one call
+        if isinstance(t, tuple):
+            if t and t[0] == 'call' and t[1] == CLS + '._load_from_dict':
+                return ('call', t[1], NONE) + tuple(no_recv(x) for x in t[3:])
+            return tuple(no_recv(x) for x in t)
+        return t
+    ctx.check(len(rets) == 1 and no_recv(rets[0][1]) == no_recv(want) and len(A.exit_envs) == 1, rule,
               'algorithm lists are translated name by name, in the listed order, without filtering or sorting',
               key=(rule, '_load_crypto_algs', 'order'), site=ctx.site(fi, fi.node), detail={'returns': [tq.text(t, 300) for _, t in rets]})
     is_list = [A.expr('type(%s) is list' % ps[1]), A.expr('isinstance(%s, list)' % ps[1])]
